@@ -116,6 +116,8 @@ ASSUME Walk(<<"sub", "..", "a.txt">>, 1, 0) = "inside" /\ Walk(<<"..", "root", "
 ASSUME Walk(<<"..", "..", "canary2.txt">>, 1, 0) = "outside" /\ Walk(<<"%2e%2e", "canary.txt">>, 1, 0) = "inside"
 ASSUME Walk(<<"..", "..", "parent", "root">>, 1, 0) = "inside" /\ Walk(<<"..", "..", "parent", "canary.txt">>, 1, 0) = "outside"
 ASSUME Walk(<<"..", "..", "..", "parent">>, 1, 0) = "outside" /\ Walk(<<"..", ".", "root", "sub">>, 1, 0) = "inside"
+\* lexically back inside although the kernel finds nothing (a.txt is no directory): no 404 is demanded
+ASSUME Walk(<<"..", "a.txt", "..", "root">>, 1, 0) = "inside" /\ Walk(<<"..", "a.txt", "..", "canary.txt">>, 1, 0) = "outside"
 InvTrue == TRUE
 SetupTiles == SrvTiles
 =============================================================================
